@@ -175,9 +175,11 @@ func (*htmlBlockParser).Continue
 func (*fencedCodeBlockParser).Open
   requires text.rdOK(reader) && text.rdLive(reader)
   requires [C05_src] text.docSrc(reader)
+  ensures [line] lineKept(reader)
 func (*setextHeadingParser).Open
   requires text.rdOK(reader) && text.rdLive(reader)
   requires [C05_src] text.docSrc(reader)
+  ensures [line] lineKept(reader)
 // ATX heading: the text segment (and, with attributes, the part before the closing #s) lies inside the line;
 // the level is the number of #s, 1..6
 func (*atxHeadingParser).Open
